@@ -96,6 +96,13 @@ func (p *c01) Run(w *lib.Worker, idx int, r *lib.Rand) lib.Case {
 		renameFormats(r, doc)
 	}
 	swaggerish := 0
+	if idx%40 == 23 {
+		// directed shape: ONE format leaf below one or two nesting positions (every keyword which builds child
+		// validators), judged with the caller-supplied registry: a child built with another registry than the one
+		// handed in gives another verdict for most (format, string) combinations below
+		doc, instRaw = formatLeafPair(r)
+		formats, regName = altRegistry(), "alternative"
+	}
 	if idx%40 == 7 {
 		// directed shape: closed objects under a composition, Swagger-flavoured instance members
 		doc, instRaw = closedCompositionPair(r)
